@@ -352,6 +352,7 @@ def gen_world(rng, profile=None):
         "prices": None,
         "rate": rng.choice([[2.2, 1.6, 5], [1, 0, 1], [0.5, 3.0, 0]]) if rng.random() < prof["p_rate"] else None,
         "nsteps": nsteps,
+        "file_layout": {"omit_driver_columns": rng.random() < 0.5, "no_station_word": rng.choice(["", "", "none", "None"])},
         "pc_shape": rng.choice(prof.get("pc_shapes", ["shipped", "shipped", "shipped", "constant", "half_taper"])),
         "time_format": rng.choice(prof.get("time_formats", ["epoch", "epoch", "epoch", "iso", "iso", "iso_utc"])),
         "extent_m": extent_m,
@@ -453,9 +454,15 @@ def materialise(spec, root=None):
             wr.writerow(header)
             wr.writerows(rows)
 
-    w(d / "vehicles/v.csv", ["vehicle_id", "lat", "lon", "mechatronics_id", "initial_soc", "schedule_id", "home_base_id"],
-      [[v["id"], *cell_latlon(v["cell"]), v["mech"], repr(v["soc"]), v.get("schedule") or "", v.get("home") or ""]
-       for v in spec["vehicles"]])
+    layout = spec.get("file_layout") or {}
+    if layout.get("omit_driver_columns") and not any(v.get("schedule") or v.get("home") for v in spec["vehicles"]):
+        # the optional driver columns left out altogether (autonomous vehicles only)
+        w(d / "vehicles/v.csv", ["vehicle_id", "lat", "lon", "mechatronics_id", "initial_soc"],
+          [[v["id"], *cell_latlon(v["cell"]), v["mech"], repr(v["soc"])] for v in spec["vehicles"]])
+    else:
+        w(d / "vehicles/v.csv", ["vehicle_id", "lat", "lon", "mechatronics_id", "initial_soc", "schedule_id", "home_base_id"],
+          [[v["id"], *cell_latlon(v["cell"]), v["mech"], repr(v["soc"]), v.get("schedule") or "", v.get("home") or ""]
+           for v in spec["vehicles"]])
     hdr = ["request_id", "o_lat", "o_lon", "d_lat", "d_lon", "departure_time", "passengers"]
     tf = spec.get("time_format") or "epoch"
 
@@ -481,7 +488,7 @@ def materialise(spec, root=None):
                 (late if j > 0 and p.get("rows_apart") else srows).append(row)
     w(d / "stations/s.csv", ["station_id", "lat", "lon", "charger_count", "charger_id", "on_shift_access"], srows + late)
     w(d / "bases/b.csv", ["base_id", "lat", "lon", "station_id", "stall_count"],
-      [[b["id"], *cell_latlon(b["cell"]), b["station"] or "", b["stalls"]] for b in spec["bases"]])
+      [[b["id"], *cell_latlon(b["cell"]), b["station"] or (layout.get("no_station_word") or ""), b["stalls"]] for b in spec["bases"]])
     w(d / "chargers/c.csv", ["charger_id", "energy_type", "rate", "units"], spec.get("chargers") or CHARGERS)
     with open(d / "mechatronics/m.yaml", "w") as f:
         yaml.safe_dump(spec["mech"], f)
